@@ -109,3 +109,16 @@ Fixpoint assoc_n {A} (k : nat) (l : list (nat * A)) : option A :=
   | [] => None
   | (k', v) :: r => if Nat.eqb k k' then Some v else assoc_n k r
   end.
+
+(* the node of a resource according to the returned dict *)
+Definition rho (res : wres) (r : nat) : option node := assoc_n r (r_map res).
+
+(* the node that feeds input k of tool application a: the producer's node, or -
+   passthrough off and the producer is a tool application - the node of the
+   Source object made for that input (sg: nodes of Source objects by identity) *)
+Definition feed (wf : wflow) (pt : bool) (res : wres) (sg : nat -> option node)
+    (a : tapp) (k : nat) : option node :=
+  match nth_error (a_ins a) k with
+  | Some q => if pt || memb q (w_srcs wf) then rho res q else sg (nth k (a_ind a) 0)
+  | None => None
+  end.
